@@ -474,16 +474,24 @@ func docComment(src, decl string) string {
 }
 
 // docSrc returns the source text of a gonum file as the check should see it:
-// the text embedded at build time from the tree being built (so a fix
-// committed to /repo is seen), overridden by the patched copy that the driver
-// materialises under <work>/patched/<rel> for `verif check --patch` (go:embed
-// does not follow the build overlay, so the patched text has to be read from
-// there; <work> is the directory of VERIF_OUT).
+// the file as it is in the tree being checked, read at run time (VERIF_REPO,
+// default /repo; the build cache does not reliably re-embed a file reached
+// through an overlay-injected go:embed, so the embedded text is only a fall
+// back), overridden by the patched copy that the driver materialises under
+// <work>/patched/<rel> for `verif check --patch` (<work> is the directory of
+// VERIF_OUT).
 func docSrc(rel, embedded string) string {
 	if out := os.Getenv("VERIF_OUT"); out != "" {
 		if b, err := os.ReadFile(filepath.Join(filepath.Dir(out), "patched", rel)); err == nil {
 			return string(b)
 		}
+	}
+	root := os.Getenv("VERIF_REPO")
+	if root == "" {
+		root = "/repo"
+	}
+	if b, err := os.ReadFile(filepath.Join(root, rel)); err == nil {
+		return string(b)
 	}
 	return embedded
 }
